@@ -439,11 +439,15 @@ func (fc *fileController) rejuvenate(fileKey uint16) error {
 }
 
 func (fc *fileController) atDescriptorLimit() bool {
-	fc.writers.RLock()
+	// Lock order: readers before writers, as garbage collection takes them (it holds the
+	// readers lock while it rejuvenates / restores the file in the writers set). Taking
+	// them the other way round here deadlocks with a GC pass once a new reader queues
+	// for the readers lock in between.
 	fc.readers.RLock()
+	fc.writers.RLock()
 	defer func() {
-		fc.readers.RUnlock()
 		fc.writers.RUnlock()
+		fc.readers.RUnlock()
 	}()
 	readerCount := 0
 	for _, f := range fc.readers.files {
@@ -455,11 +459,11 @@ func (fc *fileController) atDescriptorLimit() bool {
 }
 
 func (fc *fileController) close() error {
-	fc.writers.RLock()
 	fc.readers.RLock()
+	fc.writers.RLock()
 	defer func() {
-		fc.readers.RUnlock()
 		fc.writers.RUnlock()
+		fc.readers.RUnlock()
 	}()
 	var err error
 	for _, w := range fc.writers.open {
